@@ -1,9 +1,11 @@
-(* Extract_c03.v — extraction of the model of the TBB-parallel signed algorithm (group "c03").  ExtrOcamlBasic only. *)
+(* Extract_c03.v — extraction of the models of the TBB-parallel exact algorithms (group "c03"): the signed variant
+   (ParSignedModel) and the TBB lookup of the tree-based variants (ParTreesModel).  ExtrOcamlBasic only. *)
 From Coq Require Extraction ExtrOcamlBasic.
 From Coq Require Import ZArith.
-From Parmcb Require Import ParSignedModel.
+From Parmcb Require Import ParSignedModel ParTreesModel.
 Extraction Language OCaml.
 Set Extraction Optimize.
 Extraction "model.ml"
   Z.add Z.mul Z.opp Z.div_eucl Z.of_nat Z.to_nat Z.compare Z.eqb
-  mcb_sva_signed_tbb_Z sched_of_bits chunks_of exec_order forks size.
+  mcb_sva_signed_tbb_Z sched_of_bits chunks_of exec_order forks size
+  mcb_sva_trees_tbb_Z pt_lookup_call_Z pt_build_call_Z.
